@@ -827,7 +827,8 @@ class Workspace(_ChannelSummaryMixin, dict):
             {
                 'name': name,
                 'config': {
-                    'poi': model.config.poi_name,
+                    # a POI-less model is stored with an empty POI string
+                    'poi': model.config.poi_name or '',
                     'parameters': [
                         {
                             "bounds": [
